@@ -1,5 +1,6 @@
 pub mod c01;
 pub mod c02;
+pub mod c03;
 pub mod c04;
 pub mod c05;
 pub mod c11;
@@ -12,6 +13,7 @@ pub fn dispatch(ctx: &Ctx) -> Option<Coverage> {
     Some(match ctx.prop.as_str() {
         "C01" => c01::run(ctx),
         "C02" => c02::run_c02(ctx),
+        "C03" => c03::run(ctx),
         "C04" => c04::run(ctx),
         "C05" => c05::run(ctx),
         "C10" => c02::run_c10(ctx),
